@@ -11,6 +11,7 @@ import (
 	"image/color"
 	"image/draw"
 	"os"
+	"reflect"
 	"time"
 
 	"github.com/mandykoh/prism"
@@ -127,6 +128,11 @@ func c15Run(c c15Cell) (bad bool, msg string) {
 	}
 	if ok, p := imagesEqualAt(src, snap, b); !ok {
 		return true, fmt.Sprintf("cell %+v: input pixel %v was modified", c, p)
+	}
+	if pm, ok := src.(*image.Paletted); ok {
+		if sm, ok2 := snap.(*image.Paletted); ok2 && !reflect.DeepEqual(pm.Palette, sm.Palette) {
+			return true, fmt.Sprintf("cell %+v: the input's palette was modified", c)
+		}
 	}
 	// byte-wise too: a non-premultiplied pixel with alpha 0 can be rewritten without changing its colour value
 	pa, pb := planesOf(src), planesOf(snap)
